@@ -884,6 +884,124 @@ Proof.
       rewrite filter_app. cbn [filter app]. rewrite Kf. now rewrite app_nil_r.
 Qed.
 
+(* A compile that SPANS complete appends: the head was read from the thread l, the mr sidecar (and the checkpoint caches)
+   after `later` had been appended completely.  The cut is the cut of the thread after the appends when one of them is a
+   message, and the cut of the thread before them otherwise (frames beyond the cut are then ignored by the compiler). *)
+Lemma first_msg_app x y : first_msg_seq (x ++ y) = match first_msg_seq x with Some n => Some n | None => first_msg_seq y end.
+Proof.
+  induction x as [|f r IH]; [reflexivity|]. cbn [app first_msg_seq]. destruct (is_msg f); [reflexivity|exact IH].
+Qed.
+
+Lemma first_msg_none l : existsb is_msg l = false -> first_msg_seq l = None.
+Proof.
+  induction l as [|f r IH]; [reflexivity|]. cbn [existsb first_msg_seq]. destruct (is_msg f); [discriminate|exact IH].
+Qed.
+
+Lemma first_msg_some l : existsb is_msg l = true -> exists n, first_msg_seq l = Some n.
+Proof.
+  induction l as [|f r IH]; [discriminate|]. cbn [existsb first_msg_seq]. destruct (is_msg f); [eauto|exact IH].
+Qed.
+
+Lemma cut_scan_app_anchor a x y : existsb (is_anchor a) x = true ->
+  cut_scan a (x ++ y)
+  = option_map (fun r => (fst r, match snd r with Some n => Some n | None => first_msg_seq y end)) (cut_scan a x).
+Proof.
+  induction x as [|f r IH]; [discriminate|]. cbn [existsb app cut_scan]. fold (is_anchor a f).
+  destruct (is_anchor a f) eqn:A.
+  - intros _. cbn [option_map fst snd]. now rewrite first_msg_app.
+  - cbn [orb]. exact IH.
+Qed.
+
+Lemma existsb_filter_keep (p keep : frame -> bool) l : (forall f, p f = true -> keep f = true) ->
+  existsb p (filter keep l) = existsb p l.
+Proof.
+  intros K. induction l as [|f r IH]; [reflexivity|]. cbn [filter existsb].
+  destruct (keep f) eqn:Kf; cbn [existsb]; rewrite IH; [reflexivity|].
+  destruct (p f) eqn:Pf; [rewrite (K f Pf) in Kf; discriminate|reflexivity].
+Qed.
+
+Theorem span_cut_linearizes l later a :
+  incr (l ++ later) -> existsb (is_anchor a) (filter mr_keep l) = true ->
+  tail_cut (filter mr_keep (l ++ later)) (head_seq l) a
+  = if existsb is_msg later then cut_point (l ++ later) a else cut_point l a.
+Proof.
+  intros S Ea. destruct (incr_app_inv _ _ S) as (Sl & _ & _).
+  assert (Km : forall f, is_msg f = true -> mr_keep f = true) by (intros f M; unfold mr_keep; now rewrite M).
+  pose proof (tail_cut_agrees mr_keep l [] (filter mr_keep l) a Sl (fun g K => K) eq_refl Ea) as Tl.
+  unfold tail_cut in *. rewrite filter_app, (cut_scan_app_anchor a _ _ Ea).
+  destruct (cut_scan a (filter mr_keep l)) as [[m nx]|] eqn:Cs; cbn [option_map fst snd] in *.
+  2:{ unfold cut_point in Tl. destruct (existsb is_msg later); [|exact Tl].
+      (* no anchor: impossible *)
+      assert (X : existsb (is_anchor a) (filter mr_keep l) = false).
+      { clear -Cs. induction (filter mr_keep l) as [|f r IH]; [reflexivity|]. cbn [cut_scan existsb] in *. fold (is_anchor a f) in *.
+        destruct (is_anchor a f); [discriminate|]. cbn [orb]. now apply IH. }
+      rewrite X in Ea. discriminate. }
+  rewrite (first_msg_filter mr_keep later Km).
+  destruct (existsb is_msg later) eqn:Em.
+  - (* a message among the appended frames: the cut of the thread after the appends *)
+    assert (Ea' : existsb (is_anchor a) (filter mr_keep (l ++ later)) = true) by (rewrite filter_app, existsb_app, Ea; reflexivity).
+    pose proof (tail_cut_agrees mr_keep (l ++ later) [] (filter mr_keep (l ++ later)) a S (fun g K => K) eq_refl Ea') as Ta.
+    unfold tail_cut in Ta. rewrite filter_app, (cut_scan_app_anchor a _ _ Ea), Cs in Ta. cbn [option_map fst snd] in Ta.
+    rewrite (first_msg_filter mr_keep later Km) in Ta. rewrite <- Ta.
+    destruct nx as [n|]; [reflexivity|]. destruct (first_msg_some later Em) as (n & ->). reflexivity.
+  - rewrite (first_msg_none later Em). rewrite <- Tl. destruct nx; reflexivity.
+Qed.
+
+Lemma head_seq_in l : l <> [] -> exists f, In f l /\ fseq f = head_seq l.
+Proof.
+  intros Ne. destruct (exists_last Ne) as (l' & x & ->). exists x. split; [apply in_or_app; right; now left|].
+  now rewrite head_seq_app.
+Qed.
+
+Lemma cut_point_le_head l a c : incr l -> cut_point l a = Some c -> c <= head_seq l.
+Proof.
+  intros S. rewrite (cut_point_spec l a S). unfold cut_spec.
+  destruct (existsb (is_anchor a) l); [|discriminate].
+  destruct (find (fun f => is_msg f && (a <? fseq f)) l) as [n|] eqn:F; intros H; inversion H; subst c; [|lia].
+  apply find_some in F. destruct F as [In_ _]. pose proof (head_seq_ge l S n In_). lia.
+Qed.
+
+(* ... and decision and bundle, when none of the appended frames is a checkpoint (a checkpoint appended in between is
+   found by the lookups that run afterwards: the S9 shape, open) *)
+Theorem span_compile_linearizes P texts l later a from :
+  valid_log (l ++ later) = true -> wf_refs (l ++ later) = true -> l <> [] ->
+  forallb (fun f => negb (is_ckpt f)) later = true ->
+  existsb (is_anchor a) (filter mr_keep l) = true ->
+  tail_cut (filter mr_keep (l ++ later)) (head_seq l) a = Some from ->
+  Some (compile_with P texts (filter mr_keep (l ++ later)) (filter is_ckpt (l ++ later)) from a)
+  = if existsb is_msg later then compile P texts (l ++ later) a else compile P texts l a.
+Proof.
+  intros V W Ne Nc Ea Tc. pose proof (valid_incr _ V) as S.
+  destruct (incr_app_inv _ _ S) as (Sl & _ & Lt).
+  pose proof (span_cut_linearizes l later a S Ea) as R. rewrite Tc in R.
+  destruct (existsb is_msg later) eqn:Em.
+  - apply (all_paths_agree P texts mr_keep (l ++ later) a from _ S W (eq_sym R)).
+    split; [auto|]. exists (l ++ later), []. repeat split; [now left|now left].
+  - (* the cut is the cut of l; the appended frames lie beyond it and none is a checkpoint *)
+    assert (Ec : filter is_ckpt (l ++ later) = filter is_ckpt l).
+    { rewrite filter_app. replace (filter is_ckpt later) with (@nil frame); [now rewrite app_nil_r|].
+      symmetry. apply filter_none. intros f F. rewrite forallb_forall in Nc. specialize (Nc f F). now destruct (is_ckpt f). }
+    rewrite Ec.
+    pose proof (cut_point_le_head l a from Sl (eq_sym R)) as Hf.
+    destruct (head_seq_in l Ne) as (hf & Ih & Eh).
+    assert (Ab : Forall (fun g => from < fseq g) (filter mr_keep later)).
+    { apply Forall_forall. intros g G. apply filter_In in G. destruct G as [G _]. specialize (Lt hf g Ih G). lia. }
+    assert (Su : incr (filter mr_keep (l ++ later))) by (apply incr_filter; exact S).
+    rewrite <- (compile_with_evs_upto P texts (filter mr_keep (l ++ later)) (filter is_ckpt l) from a Su).
+    rewrite filter_app, upto_app, (upto_all_above from _ Ab), app_nil_r.
+    rewrite (compile_with_evs_upto P texts (filter mr_keep l) (filter is_ckpt l) from a (incr_filter mr_keep l Sl)).
+    unfold wf_refs in W. rewrite forallb_app in W. apply andb_true_iff in W. destruct W as [Wl _].
+    apply (all_paths_agree P texts mr_keep l a from (filter mr_keep l) Sl Wl (eq_sym R)).
+    split; [auto|]. exists l, []. repeat split; [now left|now left].
+Qed.
+
+Lemma span_example :
+  valid_log (race_log ++ [mkf 3 (BRunEnded 0 2); mkf 4 BOther]) = true
+  /\ tail_cut (filter mr_keep (race_log ++ [mkf 3 (BRunEnded 0 2); mkf 4 BOther])) (head_seq race_log) 2 = Some 2
+  /\ tail_cut (filter mr_keep (race_log ++ [mkf 3 BOther; mkf 4 BMsg])) (head_seq race_log) 2 = Some 3
+  /\ cut_point (race_log ++ [mkf 3 BOther; mkf 4 BMsg]) 2 = Some 3.
+Proof. conjs; vm_compute; reflexivity. Qed.
+
 (* S25: a checkpoint frame in flight.  The head is the checkpoint frame (it is not in the mr projection); the repaired
    lookups notice that the checkpoint caches do not hold it yet and answer from the stream: the thread after the append *)
 Theorem racing_checkpoint_linearizes P texts l f a from :
